@@ -53,7 +53,8 @@ func extraC15(c *Ctx, r *Report) {
 			guarded := false
 			for _, cf := range normFacts(condFacts(in.Block())) {
 				bo, ok := cf.Cond.(*ssa.BinOp)
-				if !ok || bo.Op != token.EQL || !cf.True {
+				// `Get(h) == ""` holds, or `Get(h) != ""` does not (a tagless switch whose first case keeps the supplied value)
+				if !ok || !((bo.Op == token.EQL && cf.True) || (bo.Op == token.NEQ && !cf.True)) {
 					continue
 				}
 				if s, ok := constString(bo.Y); !ok || s != "" {
